@@ -557,6 +557,11 @@ def _closure_short_circuits(prog, clo):
                     gs = [g for g in prog.by_path.get(r_.get("path", ""), []) if g.body and g.kind in ("fn", "assoc_fn")]
                     if len(gs) == 1 and gs[0].crate in ("embedded_graphics", "embedded_graphics_core"):
                         return ("helper", gs[0])
+                    # Option::map_or(opt, default, closure) / map_or_else(opt, default_closure, closure): the closure runs at
+                    # most once, nothing runs after it, and its result is the call's result — which is then a producer of
+                    # its own (its destination is a Result<_, E>) and falls under R04.1 - R04.3 at this call site
+                    if t["f"].get("path", "") in ("core::option::Option::<T>::map_or", "core::option::Option::<T>::map_or_else") and t["args"].index(a) >= 1:
+                        return True
                     # Result::and_then(r, closure): the closure runs only when r is Ok and its result is the call's result
                     return t["f"].get("path", "") == "core::result::Result::<T, E>::and_then" and t["args"].index(a) == 1
     return False
